@@ -3,13 +3,12 @@
 # and every VIOLATION / INCONCLUSIVE line. Evidence and replays go to a scratch output directory so
 # that /verif/evidence is not disturbed.
 cd "$(dirname "$0")/.." || exit 2
-SEEDS="${*:-2 3 4 5}"
+SEEDS="${*:-2 3 4 5}"   # SWEEP_PROPS="C01 C02" restricts the properties, SWEEP_TIER=thorough the tier
 TIER="${SWEEP_TIER:-quick}"
 OUT="$(mktemp -d /var/tmp/verif-sweep-XXXXXX)"; trap 'rm -rf "$OUT"' EXIT
 bad=0
 for s in $SEEDS; do
-  for i in $(seq -w 1 20); do
-    p="C$i"
+  for p in ${SWEEP_PROPS:-C01 C02 C03 C04 C05 C06 C07 C08 C09 C10 C11 C12 C13 C14 C15 C16 C17 C18 C19 C20}; do
     o=$(VERIF_SEED=$s VERIF_OUT_DIR="$OUT" ./check $p $TIER 2>&1); rc=$?
     echo "seed=$s $p rc=$rc $(echo "$o" | grep -E "^$p $TIER" | sed 's/.*evaluations/evaluations/')"
     if [ $rc -ne 0 ]; then bad=1; echo "$o" | grep -E -A2 "^VIOLATION|^INCONCLUSIVE|BUILD FAILED" | cut -c1-600; fi
